@@ -12,6 +12,15 @@
   R5  deactivation resets to the instance's total cores and ends every attempt on it; inactive instance => all cores free
   R6  Python mirror: every caller of a procedure returning delta_cores_mcpu applies it to the in-memory copy before acting on rc;
       the scheduler's optimistic decrement is undone on the exception path
+  R8  closed world of the in-memory mirror (Instance._free_cores_mcpu): written at construction (recorded value), deactivation (total cores,
+      on every path that sets the state inactive) and by adjust_free_cores_in_memory only; that method is called only with a procedure's
+      delta_cores_mcpu (R6 sites) or as the pool scheduler's optimistic decrement / undo pair
+  R7  lock discipline: in every transaction (entry procedure with its CALLed procedures inlined) each table read whose result decides
+      whether free_cores_mcpu is decremented / incremented is a locking read (FOR UPDATE / FOR SHARE / LOCK IN SHARE MODE) inside
+      START TRANSACTION .. COMMIT with no COMMIT / ROLLBACK / START TRANSACTION before the write, or reads rows that an earlier
+      statement of the same transaction already holds locked and no consistent read preceded that lock (REPEATABLE READ: a plain
+      SELECT is answered from the read view created by the transaction's first plain SELECT, so it does not see a
+      deactivate_instance that committed meanwhile)
 Not decided: histories as such.
 """
 from __future__ import annotations
@@ -19,6 +28,8 @@ from __future__ import annotations
 import ast
 from typing import Dict, List, Optional, Set, Tuple
 
+from engines import c0910facts as cf
+from engines import inline
 from engines import pyfacts as pf
 from engines import sqlfront as sf
 from engines import sqlrules as sr
@@ -82,14 +93,292 @@ def _flat_index(body, target: N) -> int:
     return -1
 
 
+def _history(table: str, writer: str, sign: str, entry: str) -> str:
+    if table == 'instances':
+        return (f'History: session A executes {entry}(.., I) up to this read and sees I live; session B executes deactivate_instance(I) to COMMIT (attempts ended, state = '
+                f"'inactive', free_cores_mcpu = cores_mcpu); A, which neither waited for B nor sees B's commit, goes on and writes free_cores_mcpu {sign} cores of the job: "
+                'an inactive instance no longer reports all its cores free')
+    if table == 'attempts':
+        return (f'History: two reports for the same attempt (a retried mark_job_complete / unschedule_job) run {entry} concurrently; both read end_time NULL because neither '
+                'read waits for the other, both pass the guard and the cores of the attempt are given back twice')
+    return f'History: a concurrent transaction commits a change to {table} between this read and the write it guards, {writer} adjusts free_cores_mcpu on a condition that no longer holds'
+
+
+def r7(ctx: Ctx, prog: sf.SqlProgram, writes: Dict[str, list]) -> None:
+    """Violations are reported for recognised unsafe shapes; shapes that cannot be decided are collected and declined at the END
+    (so that a violation established in one transaction is not lost to an undecidable sibling)."""
+    entries, _called = cf.entry_procedures(prog)
+    covered: Set[str] = set()
+    declined: List[str] = []
+    n_txn = 0
+    for r in entries:
+        if not any(_free_core_writes(x.ast.body) for x in _reachable(prog, r)):
+            continue
+        t = cf.Txn(prog, r)
+        n_txn += 1
+        for w, sign, v in cf.free_core_writes(t, TBL, COL):
+            if sign == 'other':
+                continue  # the reset to cores_mcpu is idempotent: repeating it on a stale guard leaves an inactive instance with all cores free (R5)
+            writer = w.scope.name
+            covered.add(writer)
+            if w.in_loop:
+                declined.append(f'{writer}: the free-core adjustment sits in a loop (lock discipline not decided for loops)')
+                continue
+            reads, unknown = t.guard_reads(w)
+            if unknown:
+                declined.append(f'{r.name}: the condition of the free-core adjustment in {writer} is not traceable to table reads: {unknown}')
+                continue
+            sg = '-' if sign == '-' else '+'
+            for p, var, col in reads:
+                tabs = sf.from_tables(p.st.frm)
+                tnames = [x.name.lower() if x.kind == 'table' else '<derived>' for x in tabs]
+                tn = tnames[0] if len(tnames) == 1 else '+'.join(tnames)
+                cons = f'sql::{writer}::{sg} guard {var} <- {tn}.{col.lower().split(".")[-1]} read under lock' + ('' if writer == r.name else f' (in {r.name})')
+                stmt = text(p.st)[:110]
+                rfile, rline = p.scope.routine.file, p.line()
+                lock = p.st.lock or ''
+                head = f'`{stmt}` decides the {sg} adjustment of free_cores_mcpu in {writer}'
+                hist = _history(tn, writer, sg, r.name)
+                extra = {'transaction': r.name, 'read': text(p.st), 'write': text(w.st)}
+                if 'SKIP LOCKED' in lock:
+                    declined.append(f'{p.scope.name}: guard read `{stmt}` uses SKIP LOCKED')
+                    continue
+                bnd, how = t.boundary_between(p, w)
+                if how == 'maybe':
+                    declined.append(f'{r.name}: a {bnd.st.what} in another branch may run between `{stmt}` and the free-core write')
+                    continue
+                if how == 'definite':
+                    ctx.bad('R7', cons, f'{head}, but `{bnd.st.what}` ({bnd.where()}) runs between the read and the write: whatever the read locked is released there and the '
+                            f'decision is taken on a value other sessions may since have changed. {hist}', rfile, rline, extra)
+                    continue
+                start, status = t.txn_start_for(p)
+                if status == 'unknown' or (status == 'out' and start is None):
+                    declined.append(f'{r.name}: cannot tell whether `{stmt}` runs inside a transaction (no START TRANSACTION on every path before it; the caller\'s context is not known)')
+                    continue
+                if status == 'out':
+                    ctx.bad('R7', cons, f'{head} but runs after `{start.st.what}` ({start.where()}), outside any transaction: its lock is gone when the statement returns. {hist}', rfile, rline, extra)
+                    continue
+                if cf.is_locking(lock):
+                    ctx.ok('R7', cons, {'lock': lock, 'transaction': r.name})
+                    continue
+                # plain (consistent) read
+                snaps = t.snapshots_before(p, start)
+                lk, lstat = t.row_locked_before(p, start)
+                stale = [x for x, k, d in snaps if d == 'definite']
+                if lstat == 'unknown':
+                    declined.append(f'{r.name}: a transaction boundary may separate `{stmt}` from the earlier lock on the same row')
+                    continue
+                if lstat == 'locked':
+                    early = [(x, k, d) for x, k, d in snaps if x.idx < lk.idx]
+                    sure = [x for x, k, d in early if k == 'read' and d == 'definite']
+                    if not early:
+                        # the row is locked by this transaction and the read view is younger than the lock: the plain read returns the locked row
+                        ctx.ok('R7', cons, {'lock': f'row already locked by `{text(lk.st)[:80]}`', 'transaction': r.name})
+                        continue
+                    if not sure:
+                        declined.append(f'{r.name}: cannot tell whether the read view exists before `{text(lk.st)[:80]}` locks the row that `{stmt}` re-reads')
+                        continue
+                    ctx.bad('R7', cons, f'{head}. It is a plain SELECT; the row was locked earlier by `{text(lk.st)[:80]}`, but the transaction\'s read view was created even earlier by '
+                            f'`{text(sure[0].st)[:80]}` ({sure[0].where()}), so the plain SELECT returns the row as of THAT moment, not the locked one. {hist}', rfile, rline, extra)
+                    continue
+                if stale:
+                    sn = stale[0]
+                    what = f'`{text(sn.st)[:80]}`' + (' (the stored function it invokes reads tables without a lock)' if t.snapshot_kind(sn) == 'function' else '')
+                    ctx.bad('R7', cons, f'{head}, but it is a plain SELECT and the read view of transaction {r.name} already exists when it runs (created by {what}, {sn.where()}): under '
+                            f'REPEATABLE READ it returns {tn}.{col} as of that earlier statement, does not see anything committed since and waits for nobody. {hist}', rfile, rline, extra)
+                    continue
+                # plain read that opens (or may open) the read view itself: it returns the latest committed row but holds no lock; whether other locks of this
+                # transaction happen to keep the writers of that row out until COMMIT is not decided here
+                declined.append(f'{r.name}: `{stmt}` (guarding the {sg} adjustment in {writer}) takes no lock; no earlier consistent read makes it stale for certain, and whether other '
+                                'locks held by the transaction exclude a concurrent change of the row is not decided')
+    ctx.unit('transactions_linearised', n_txn)
+    for name, ws in writes.items():
+        if any(v.kind == 'bin' and v.op in ('+', '-') for st, g, v in ws) and name not in covered:
+            declined.append(f'{name} adjusts free_cores_mcpu but is not reached from any procedure that starts a transaction')
+    ctx.need(not declined, 'R7 lock discipline: ' + ' | '.join(declined))
+
+
+def _hoist_test_calls(m: pf.Module, target: str, helpers: Set[str]) -> pf.Module:
+    """`if helper(..): B` -> `t = helper(..); if t: B` in function `target` (same behaviour; makes the call a statement the inliner accepts)."""
+    import copy
+    tree = copy.deepcopy(m.tree)
+    m2 = pf.Module(m.rel, m.path, m.src, tree)
+    fn = m2.func(target)
+    k = [0]
+
+    def is_helper_call(x: ast.AST) -> bool:
+        if isinstance(x, ast.Await):
+            x = x.value
+        return isinstance(x, ast.Call) and isinstance(x.func, ast.Name) and x.func.id in helpers
+
+    def block(stmts: List[ast.stmt]) -> List[ast.stmt]:
+        out: List[ast.stmt] = []
+        for st in stmts:
+            for fld in ('body', 'orelse', 'finalbody'):
+                if hasattr(st, fld) and isinstance(getattr(st, fld), list) and not isinstance(st, (ast.FunctionDef, ast.AsyncFunctionDef, ast.ClassDef)):
+                    setattr(st, fld, block(getattr(st, fld)))
+            if isinstance(st, ast.Try):
+                for h in st.handlers:
+                    h.body = block(h.body)
+            if isinstance(st, ast.If):
+                t = st.test
+                neg = isinstance(t, ast.UnaryOp) and isinstance(t.op, ast.Not)
+                inner = t.operand if neg else t
+                if is_helper_call(inner):
+                    k[0] += 1
+                    name = f'_hoisted_{k[0]}'
+                    asg = ast.copy_location(ast.Assign(targets=[ast.Name(id=name, ctx=ast.Store())], value=inner, lineno=st.lineno), st)
+                    ref: ast.expr = ast.Name(id=name, ctx=ast.Load())
+                    st.test = ast.copy_location(ast.UnaryOp(op=ast.Not(), operand=ref), t) if neg else ast.copy_location(ref, t)
+                    ast.fix_missing_locations(asg)
+                    ast.fix_missing_locations(st)
+                    out.append(asg)
+            out.append(st)
+        return out
+
+    fn.body = block(fn.body)
+    return m2
+
+
+MIRROR_ATTR = '_free_cores_mcpu'
+INSTANCE_PY = 'batch/batch/driver/instance.py'
+
+
+def _delta_result_names(mod: pf.Module, fn: pf.FuncDef, procs: Set[str]) -> Set[str]:
+    """locals of fn assigned from `CALL <procedure returning delta_cores_mcpu>`."""
+    out = set()
+    for e in sf.embedded_in(mod):
+        if e.fn is fn and e.sql_text is not None:
+            sts = e.stmts()
+            if len(sts) == 1 and sts[0].kind == 'call' and sts[0].name in procs:
+                for n in pf.walk_shallow(fn):
+                    if isinstance(n, ast.Assign) and len(n.targets) == 1 and isinstance(n.targets[0], ast.Name) and any(x is e.call for x in ast.walk(n.value)):
+                        out.add(n.targets[0].id)
+    return out
+
+
+def _is_proc_delta(mod: pf.Module, fn: pf.FuncDef, call: ast.Call, procs: Set[str]) -> bool:
+    """the argument of adjust_free_cores_in_memory is <rv>['delta_cores_mcpu'] where rv is the result of a delta-returning CALL in this function, or a
+    parameter of a module-level helper every call of which passes such a result."""
+    if len(call.args) != 1 or call.keywords:
+        return False
+    a = pf.expand_locals(fn, call.args[0])
+    if not (isinstance(a, ast.Subscript) and isinstance(a.value, ast.Name) and pf.const_str(a.slice) == 'delta_cores_mcpu'):
+        return False
+    rv = a.value.id
+    if rv in _delta_result_names(mod, fn, procs):
+        return True
+    params = [x.arg for x in fn.args.args]
+    if rv in params and fn in mod.tree.body:
+        i = params.index(rv)
+        sites = [(c, mod.enclosing_func(c)) for c in ast.walk(mod.tree) if isinstance(c, ast.Call) and isinstance(c.func, ast.Name) and c.func.id == fn.name]
+        ok = bool(sites)
+        for c, f2 in sites:
+            v = c.args[i] if i < len(c.args) else next((k.value for k in c.keywords if k.arg == rv), None)
+            ok = ok and f2 is not None and isinstance(v, ast.Name) and v.id in _delta_result_names(mod, f2, procs)
+        return ok
+    return False
+
+
+def r8(ctx: Ctx, jobm: pf.Module, poolm: pf.Module, neg: list, pos: list, procs_with_delta: Set[str]) -> None:
+    """Every statement that changes Instance._free_cores_mcpu is one of the mirrored events: construction (= the recorded value),
+    deactivation (= total cores, with state inactive), adjust_free_cores_in_memory(+= delta); and adjust_free_cores_in_memory is called only
+    with a delta returned by a stored procedure (R6 sites) or as the scheduler's optimistic decrement / its undo (R6 pair)."""
+    im = pf.load(INSTANCE_PY)
+    rels = list(pf.walk_py(['batch/batch'] if ctx.tier == 'quick' else ['batch', 'gear', 'ci', 'auth']))
+    for rel in rels:
+        mod = pf.load(rel)
+        if MIRROR_ATTR not in mod.src and 'adjust_free_cores_in_memory' not in mod.src:
+            continue
+        for node in ast.walk(mod.tree):
+            tgt = None
+            if isinstance(node, ast.Assign):
+                tg = [t_ for t_ in node.targets if isinstance(t_, ast.Attribute) and t_.attr == MIRROR_ATTR]
+                tgt = tg[0] if tg else None
+            elif isinstance(node, (ast.AugAssign, ast.AnnAssign)) and isinstance(node.target, ast.Attribute) and node.target.attr == MIRROR_ATTR:
+                tgt = node.target
+            elif isinstance(node, ast.Call) and pf.dotted(node.func) in ('setattr',) and len(node.args) >= 2 and pf.const_str(node.args[1]) == MIRROR_ATTR:
+                ctx.bad('R8', f'{rel}::setattr {MIRROR_ATTR}', 'the in-memory free cores are written through setattr', mod.path, node.lineno)
+            if tgt is None:
+                continue
+            fn = mod.enclosing_func(node)
+            q = mod.qualname(fn) if fn is not None else '<module>'
+            cons = f'{rel}::{q}::{MIRROR_ATTR} {"+=" if isinstance(node, ast.AugAssign) else "="} {pf.nsrc(node.value) if node.value is not None else ""}'
+            if rel == INSTANCE_PY and q == 'Instance.__init__' and isinstance(node, ast.Assign):
+                ok = pf.nsrc(tgt.value) == 'self' and isinstance(node.value, ast.Name) and node.value.id in [a.arg for a in fn.args.args]
+                ctx.check(ok, 'R8', cons, 'a new in-memory instance does not start from the recorded free cores passed to the constructor', mod.path, node.lineno)
+            elif rel == INSTANCE_PY and q == 'Instance.deactivate' and isinstance(node, ast.Assign):
+                g = pf.cfg(fn)
+                ok = pf.nsrc(node.value) == 'self.cores_mcpu' and pf.nsrc(tgt.value) == 'self'
+                ctx.check(ok, 'R8', cons, 'deactivation does not set the in-memory free cores to the instance\'s total cores', mod.path, node.lineno)
+            elif rel == INSTANCE_PY and q == 'Instance.adjust_free_cores_in_memory' and isinstance(node, ast.AugAssign):
+                ok = isinstance(node.op, ast.Add) and isinstance(node.value, ast.Name) and node.value.id in [a.arg for a in fn.args.args] and pf.nsrc(tgt.value) == 'self'
+                ctx.check(ok, 'R8', cons, 'adjust_free_cores_in_memory does not add its argument to the in-memory free cores', mod.path, node.lineno)
+            else:
+                ctx.bad('R8', cons, f'{q} changes the in-memory free cores directly; the only mirrored events are construction, deactivation and adjust_free_cores_in_memory(delta)', mod.path, node.lineno)
+        for node in ast.walk(mod.tree):
+            if isinstance(node, ast.Call) and isinstance(node.func, ast.Attribute) and node.func.attr == 'adjust_free_cores_in_memory':
+                fn = mod.enclosing_func(node)
+                q = mod.qualname(fn) if fn is not None else '<module>'
+                arg = pf.nsrc(node.args[0]) if len(node.args) == 1 and not node.keywords else '?'
+                cons = f'{rel}::{q}::adjust_free_cores_in_memory({arg})'
+                if mod.rel == jobm.rel and fn is not None and _is_proc_delta(mod, fn, node, procs_with_delta):
+                    ctx.ok('R8', cons, 'delta returned by the stored procedure (R6)')
+                elif mod.rel == poolm.rel and (node in neg or node in pos):
+                    ctx.ok('R8', cons, 'optimistic decrement / undo pair (R6)')
+                else:
+                    ctx.bad('R8', cons, f'{q} adjusts an instance\'s in-memory free cores by `{arg}`, which is neither a delta_cores_mcpu returned by a stored procedure nor the pool scheduler\'s '
+                            'optimistic decrement with its undo: the database counter does not move with it, so the two copies drift apart (e.g. a reservation made before scheduling that '
+                            'is never given back when scheduling fails, or is counted again when the procedure reports its delta)', mod.path, node.lineno)
+    # deactivation mirrors the reset: every normal completion of Instance.deactivate that reaches the state change also resets the cores
+    fn = im.func('Instance.deactivate')
+    g = pf.cfg(fn)
+    st_nodes = g.find(lambda n: isinstance(n.ast, ast.Assign) and pf.nsrc(n.ast.targets[0]) == 'self._state' and pf.nsrc(n.ast.value) == "'inactive'")
+    rs_nodes = g.find(lambda n: isinstance(n.ast, ast.Assign) and pf.nsrc(n.ast.targets[0]) == f'self.{MIRROR_ATTR}' and pf.nsrc(n.ast.value) == 'self.cores_mcpu')
+    ctx.need(st_nodes, 'Instance.deactivate: `self._state = \'inactive\'` not found')
+    ok = bool(rs_nodes) and all(g.path_avoiding(sn, lambda n: n is g.exit, lambda n: n in rs_nodes, edge_ok=lambda a, b, lab: lab != 'exc') is None
+                                or any(g.dominated_by(sn, lambda n, r_=r_: n is r_) for r_ in rs_nodes) for sn in st_nodes)
+    ctx.check(ok, 'R8', f'{INSTANCE_PY}::Instance.deactivate::inactive => all cores free', 'an instance that becomes inactive in memory keeps its old free-core count: it does not report all cores free '
+              '(the database row was reset to cores_mcpu by deactivate_instance)', im.path, fn.lineno)
+    # from_record / create pass the recorded value into the constructor's free_cores_mcpu parameter
+    init = im.func('Instance.__init__')
+    pnames = [a.arg for a in init.args.args][1:]
+    ctx.need('free_cores_mcpu' in pnames and 'cores_mcpu' in pnames, 'Instance.__init__: parameters cores_mcpu / free_cores_mcpu not found')
+    fi, ci = pnames.index('free_cores_mcpu'), pnames.index('cores_mcpu')
+    for q, want in (('Instance.from_record', lambda a, c: pf.nsrc(a) == "record['free_cores_mcpu']"), ('Instance.create', lambda a, c: pf.nsrc(a) == pf.nsrc(c))):
+        f2 = im.func(q)
+        calls = [c for c in ast.walk(f2) if isinstance(c, ast.Call) and pf.dotted(c.func) == 'Instance']
+        ctx.need(len(calls) == 1 and len(calls[0].args) > max(fi, ci) and not calls[0].keywords, f'{q}: constructor call not recognised')
+        a, c = calls[0].args[fi], calls[0].args[ci]
+        ctx.check(want(a, c), 'R8', f'{INSTANCE_PY}::{q}::initial in-memory free cores', f'{q} builds the in-memory instance with free cores `{pf.nsrc(a)}` (total `{pf.nsrc(c)}`): '
+                  + ('a loaded instance does not start from the recorded counter' if 'record' in q else 'a new instance does not start with all cores free'), im.path, calls[0].lineno)
+
+
+def _reachable(prog: sf.SqlProgram, r: sf.Routine, seen: Optional[Set[str]] = None) -> List[sf.Routine]:
+    seen = seen if seen is not None else set()
+    if r.name in seen:
+        return []
+    seen.add(r.name)
+    out = [r]
+    for st in sf.all_statements(r.ast.body):
+        if st.kind == 'call':
+            c = prog.routines.get(st.name) or next((x for n, x in prog.routines.items() if n.lower() == st.name.lower()), None)
+            if c is not None:
+                out += _reachable(prog, c, seen)
+    return out
+
+
 def run(ctx: Ctx) -> None:
-    ctx.explanation = 'Acquire/release obligations on every writer of instances_free_cores_mcpu.free_cores_mcpu in the effective SQL program and its Python mirror.'
+    ctx.explanation ='Acquire/release obligations on every writer of instances_free_cores_mcpu.free_cores_mcpu in the effective SQL program and its Python mirror.'
     ctx.rule('R1', 'closed world of writers of free_cores_mcpu with their direction (-, +, reset, init)', 5)
     ctx.rule('R2', 'acquire once: decrement dominated by ROW_COUNT() = 1 right after the idempotent attempts insert; amount = the job\'s cores at each CALL add_attempt', 8)
     ctx.rule('R3', 'release once: increment dominated by cur_end_time IS NULL read FOR UPDATE before end_time is written; amount = the job\'s cores; every single-attempt end releases', 13)
     ctx.rule('R4', 'acquire and release enabled for the same instance states', 2)
     ctx.rule('R5', 'deactivate_instance ends all attempts of the instance and resets free cores to total cores', 3)
-    ctx.rule('R6', 'Python mirror applies delta_cores_mcpu at every call site before acting on rc; optimistic decrement undone on failure', 7)
+    ctx.rule('R6', 'Python mirror applies delta_cores_mcpu at every call site, to the instance named in the CALL, before acting on rc; optimistic decrement undone on failure', 16)
+    ctx.rule('R8', 'closed world of the in-memory mirror: _free_cores_mcpu changes only at construction (= recorded value), deactivation (= total) and through adjust_free_cores_in_memory, '
+             'which is called only with a procedure\'s delta or as the optimistic decrement / undo pair', 13)
+    ctx.rule('R7', 'every table read deciding a free-core decrement / increment is a locking read inside the transaction (or re-reads a row locked earlier, before the read view existed)', 8)
     prog = sf.load_program()
     ctx.unit('effective_routines', len(prog.routines))
 
@@ -259,25 +548,96 @@ def run(ctx: Ctx) -> None:
             if s.kind == 'select' and not s.into and any((al or text(c)).lower().split('.')[-1] == 'delta_cores_mcpu' for c, al in s.cols):
                 procs_with_delta.add(name)
     n6 = 0
+    declined6: List[str] = []
+    # module-level helpers of job.py that (transitively) reach adjust_free_cores_in_memory: seen through by inlining
+    toplevel = {f.name: f for f in m.tree.body if isinstance(f, (ast.FunctionDef, ast.AsyncFunctionDef))}
+    reaches_adjust: Set[str] = set()
+    changed = True
+    while changed:
+        changed = False
+        for nm, f in toplevel.items():
+            if nm in reaches_adjust:
+                continue
+            for c in ast.walk(f):
+                if isinstance(c, ast.Call) and ((isinstance(c.func, ast.Attribute) and c.func.attr == 'adjust_free_cores_in_memory') or
+                                                (isinstance(c.func, ast.Name) and c.func.id in reaches_adjust)):
+                    reaches_adjust.add(nm)
+                    changed = True
+                    break
+    # functions that themselves (or through callees) CALL a delta-returning procedure are call sites in their own right, not helpers
+    site_fns: Set[str] = set()
+    for e in sf.embedded_in(m):
+        if e.sql_text is not None and e.fn is not None:
+            sts = e.stmts()
+            if len(sts) == 1 and sts[0].kind == 'call' and sts[0].name in procs_with_delta:
+                site_fns.add(e.fn.name)
+    changed = True
+    while changed:
+        changed = False
+        for nm, f in toplevel.items():
+            if nm not in site_fns and any(isinstance(c, ast.Call) and isinstance(c.func, ast.Name) and c.func.id in site_fns for c in ast.walk(f)):
+                site_fns.add(nm)
+                changed = True
+    helpers = reaches_adjust - site_fns
     for e in sf.embedded_in(m):
         if e.sql_text is None:
             continue
         sts = e.stmts()
         if len(sts) == 1 and sts[0].kind == 'call' and sts[0].name in procs_with_delta:
             n6 += 1
-            fn = e.fn
+            proc = sts[0].name
+            cons = f'{m.rel}::{m.qualname(e.fn)}::CALL {proc}'
+            ctx.need(e.fn is not None and e.fn.name in toplevel and toplevel[e.fn.name] is e.fn, f'{cons}: the call site is not a module-level function')
+            m2, il = inline.inline_functions(_hoist_test_calls(m, e.fn.name, helpers), e.fn.name, exclude=tuple(n_ for n_ in toplevel if n_ not in helpers))
+            fn = m2.func(e.fn.name)
             g = pf.cfg(fn)
-            cons = f'{m.rel}::{m.qualname(fn)}::CALL {sts[0].name}'
-            adj = g.find(lambda n: any(pf.dotted(c.func) is not None and pf.dotted(c.func).endswith('.adjust_free_cores_in_memory')
-                                       and [pf.nsrc(a) for a in c.args] == ["rv['delta_cores_mcpu']"] for c in pf.node_calls(n)))
-            ctx.check(len(adj) == 1, 'R6', cons + '::applies delta', f'the caller applies delta_cores_mcpu to the in-memory free cores {len(adj)} time(s), expected once', m.path, e.lineno)
+            calls2 = [c for c in ast.walk(fn) if isinstance(c, ast.Call) and isinstance(c.func, ast.Attribute) and c.func.attr in sf.EXEC_METHODS and c.args
+                      and (pf.const_str(c.args[0]) or '').strip().upper().startswith(f'CALL {proc.upper()}(')]
+            ctx.need(len(calls2) == 1, f'{cons}: CALL statement not found again after inlining')
+            call2 = calls2[0]
+            cn = g.node_of(call2)
+            ctx.need(len(cn) == 1 and isinstance(cn[0].ast, ast.Assign) and isinstance(cn[0].ast.targets[0], ast.Name), f'{cons}: the procedure result is not assigned to a local')
+            rvn = cn[0].ast.targets[0].id
+            want = f"{rvn}['delta_cores_mcpu']"
+
+            def _is_adj(c: ast.Call, strict: bool = True) -> bool:
+                if not (isinstance(c.func, ast.Attribute) and c.func.attr == 'adjust_free_cores_in_memory'):
+                    return False
+                return not strict or (len(c.args) == 1 and not c.keywords and pf.nsrc(pf.expand_locals(fn, c.args[0])) == want)
+            adj = g.find(lambda n: any(_is_adj(c) for c in pf.node_calls(n)))
+            anyadj = g.find(lambda n: any(_is_adj(c, False) for c in pf.node_calls(n)))
+            hidden = [c for c in ast.walk(fn) if isinstance(c, ast.Call) and isinstance(c.func, ast.Name) and c.func.id in helpers]
+            if hidden:
+                declined6.append(f'{cons}: the in-memory adjustment is made by helper `{hidden[0].func.id}` called in a form that cannot be inlined (skipped: {il.skipped})')
+                continue
+            ctx.check(len(adj) == 1 and len(anyadj) == 1, 'R6', cons + '::applies delta', f'the caller applies {want} to the in-memory free cores {len(adj)} time(s) '
+                      f'({len(anyadj)} in-memory adjustment(s) in all), expected exactly once', m.path, e.lineno)
             if len(adj) == 1:
                 # no return/raise that tests rc may come before the adjustment
-                early = g.find(lambda n: n.kind == 'test' and "rv['rc']" in pf.nsrc(n.ast))
+                early = g.find(lambda n: n.kind == 'test' and f"{rvn}['rc']" in pf.nsrc(n.ast))
                 dom = g.dominators()
                 bad_early = [t for t in early if t.id in dom.get(adj[0].id, set())]
-                ctx.check(not bad_early, 'R6', cons + '::before rc', 'the in-memory adjustment happens only after the rc test: a refused report that still changed the database counter is not mirrored',
+                ctx.check(not bad_early, 'R6', cons + '::before rc', 'the in-memory adjustment happens only after the rc test: a refused report that still changed the database counter is not mirrored '
+                          f'(e.g. {proc} returns rc = 1 with delta_cores_mcpu != 0 when the attempt was recorded but the job could not change state: the database row moved, the in-memory copy does not)',
                           m.path, adj[0].lineno)
+                # the instance whose in-memory counter is adjusted is the instance named in the CALL (the database adjusted THAT row)
+                call = [c for c in pf.node_calls(adj[0]) if _is_adj(c)][0]
+                recv = pf.nsrc(call.func.value)
+                params = [p_[1].lower() for p_ in prog.routine(proc).ast.params]
+                ipos = [i for i, p_ in enumerate(params) if p_ == 'in_instance_name']
+                elts = sr.args_tuple(fn, call2.args[1]) if len(call2.args) > 1 else None
+                ctx.need(len(ipos) == 1 and elts is not None and len(elts) == len(params), f'{cons}: cannot bind the CALL arguments to the procedure parameters')
+                arg = elts[ipos[0]]
+                same = pf.nsrc(arg) == f'{recv}.name'
+                if not same and isinstance(arg, ast.Name):
+                    defs = [d for d in pf.assignments(fn).get(recv, []) if isinstance(d, ast.expr) and not (isinstance(d, ast.Constant) and d.value is None)]
+                    same = bool(defs) and all(isinstance(d, ast.Call) and pf.dotted(d.func) is not None and pf.dotted(d.func).endswith('.get_instance')
+                                              and [pf.nsrc(a) for a in d.args] == [arg.id] for d in defs)
+                other = isinstance(arg, ast.Attribute) and arg.attr == 'name' and pf.nsrc(arg.value) != recv
+                ctx.need(same or other or isinstance(arg, ast.Name), f'{cons}: instance argument `{pf.nsrc(arg)}` not recognised')
+                ctx.check(same, 'R6', cons + '::same instance', f'the procedure adjusts the database counter of instance `{pf.nsrc(arg)}` but the in-memory adjustment is applied to `{recv}`, '
+                          'which is not (provably) that instance: one instance\'s recorded free cores drift from its attempts', m.path, adj[0].lineno)
+    ctx.need(not declined6, ' | '.join(declined6))
     ctx.need(n6 >= 5, f'only {n6} call sites of procedures returning delta_cores_mcpu found in driver/job.py')
     # optimistic decrement in the pool scheduler is undone on failure
     pm = pf.load('batch/batch/driver/instance_collection/pool.py')
@@ -292,3 +652,9 @@ def run(ctx: Ctx) -> None:
             in_handler = isinstance(tr, ast.Try) and any(isinstance(x, ast.Call) and pf.dotted(x.func) == 'schedule_job' for b in tr.body for x in ast.walk(b))
     ctx.check(len(pos) == 1 and in_handler, 'R6', f'{pm.rel}::schedule_loop_body::optimistic decrement undone',
               'the in-memory cores taken before schedule_job are not given back in the except handler around schedule_job', pm.path, neg[0].lineno)
+
+    # ---- R8 closed world of the in-memory mirror ----------------------------------------------------------
+    r8(ctx, m, pm, neg, pos, procs_with_delta)
+
+    # ---- R7 lock discipline of the guard reads (last: its declines must not hide verdicts of the other rules) ------
+    r7(ctx, prog, writes)
